@@ -12,6 +12,8 @@ pub fn scan_dir(dir: &AbsPath, recursive: bool) -> Result<Directory, PathError> 
     let mut directory = Directory::new();
 
     for entry in entries {
+        #[cfg(feature = "verif")]
+        crate::verif::io_point("scan_entry");
         let entry = entry
             .change_context_lazy(|| PathError::from(&dir_path))
             .attach_printable("failed to read directory entry")?;
